@@ -390,7 +390,11 @@ fn gen_tspec(r: &mut Rng, name: String) -> TSpec {
 }
 
 fn gen_name(r: &mut Rng, i: usize) -> String {
-    match r.below(10) {
+    match r.below(13) {
+        // a logical name that itself ends in ".npy" (numpy: savez(**{"a.npy": x}) stores member "a.npy.npy")
+        10 => format!("a{i}.npy.npy"),
+        11 => format!("b{i}.npy.npy.npy"),
+        12 => format!("c{i}.NPY"),
         0 => format!("t{i}.npy"),
         1 => format!("weights/layer.{i}"),
         2 => format!("tënsor_{i}_名前"),
@@ -944,6 +948,9 @@ impl Engine for SerEngine {
                         s.push_str(&h[2 * end..]);
                         out.push(SerCase { phase: Phase::Raw(s), ..case.clone() });
                         start += chunk;
+                        if n > 4096 && out.len() >= 96 {
+                            return out; // large inputs: coarsest candidates only; the minimiser asks again
+                        }
                     }
                     if chunk == 1 {
                         break;
